@@ -12,7 +12,17 @@ if ! (cd "$S" && patch -p1 -s < "$SRC/patch.diff"); then echo "RESULT $ID patch=
 if ! (cd "$S" && go build ./... 2> "$S.build.log"); then echo "RESULT $ID compile=FAILED"; tail -5 "$S.build.log"; rm -rf "$S" "$S.build.log"; exit 3; fi
 rm -f "$S.build.log"
 SUITE=pass
-(cd "$S" && go test -vet=off -count=1 ./... > "$S.suite.log" 2>&1) || SUITE=fail
+(cd "$S" && flock /tmp/seeded-verify-suite.lock go test -vet=off -count=1 ./... > "$S.suite.log" 2>&1) || SUITE=fail
+# package test listens on the fixed port 5140: when another suite runs on the machine at the same moment it fails at once with
+# "address already in use" - that package alone is then re-run (up to 4 times) before the suite is called failing
+if [ "$SUITE" = fail ] && [ "$(grep -c '^FAIL' "$S.suite.log")" = 2 ] && grep -q "^FAIL.*slog-agent/test" "$S.suite.log"; then
+  for i in 1 2 3 4; do
+    sleep $((i*3))
+    if (cd "$S" && flock /tmp/seeded-verify-suite.lock go test -vet=off -count=1 ./test/... > "$S.suite2.log" 2>&1); then SUITE=pass; break; fi
+  done
+  [ "$SUITE" = pass ] && : > "$S.suite.log"
+  rm -f "$S.suite2.log"
+fi
 [ "$SUITE" = fail ] && grep -E "^(FAIL|---)" "$S.suite.log" | head -5
 rm -f "$S.suite.log"
 # demo with the change
